@@ -91,8 +91,14 @@ def run(c):
             nokernel.add(idx)
         roots = roots_of(L.dec(o))
         c.rng.shuffle(roots)
-        for r in roots[:(8 if kind in ("witness", "sample-acc") else 3)]:
-            for sd in range(nseeds):
+        # an accepted unsafe edit outside the known defect classes should not exist: search much harder there
+        suspicious = kind == "unsafe" and meta.get("class") == "guard"
+        if suspicious:
+            outer = meta.get("outer")
+            tys = [cc["ty"] for cc in L.dec(o) if cc["n"] == outer and cc["k"] == "t"]
+            roots = [r for r in roots if r in tys or r == outer] + [r for r in roots if r not in tys and r != outer]
+        for r in roots[:(8 if kind in ("witness", "sample-acc") or suspicious else 3)]:
+            for sd in range(16 if suspicious else nseeds):
                 gen_lines.append("lint.wire %s %s %s %d ? s" % (o, n, r, c.rng.below(1 << 30)))
                 owner.append(idx)
     gen = run_lines(model, gen_lines)
